@@ -92,6 +92,48 @@ theorem atDerivationIndex_spec (ckd : X → Nat → X) (k : DPK X P) (i : Nat) :
       · simp [DPK.atDerivationIndex, childFromIdx, hi, keyAt, keyErrAt, DPK.isMultipath]
 
 
+/-- the guards of public derivation at index `i`, spelled out: not a multipath key, no hardened
+step in the path, no hardened wildcard, and — if there is a wildcard — `i < 2³¹` -/
+def PubliclyDerivableAt (k : DPK X P) (i : Nat) : Prop :=
+  k.isMultipath = false ∧ k.hasHardenedStep = false ∧
+    (∀ o x p, k ≠ .xpub o x p .hardened) ∧ (k.hasWildcard = true → i < indexLimit)
+
+theorem keyAt_isSome_iff (ckd : X → Nat → X) (k : DPK X P) (i : Nat) :
+    (keyAt ckd k i).isSome ↔ PubliclyDerivableAt k i := by
+  unfold PubliclyDerivableAt
+  cases k with
+  | single o key => simp [keyAt, DPK.isMultipath, DPK.hasHardenedStep, DPK.hasWildcard]
+  | multi o x paths wc => simp [keyAt, DPK.isMultipath]
+  | xpub o x path wc =>
+    have hp : ∀ p : List Child, (derivePath ckd x p).isSome = !p.any Child.isHardened :=
+      derivePath_isSome_iff ckd x
+    cases wc with
+    | none => simp [keyAt, DPK.isMultipath, DPK.hasHardenedStep, DPK.hasWildcard, hp]
+    | hardened => simp [keyAt, DPK.isMultipath, DPK.hasHardenedStep, DPK.hasWildcard]
+    | unhardened =>
+      by_cases hi : i < indexLimit
+      · simp [keyAt, DPK.isMultipath, DPK.hasHardenedStep, DPK.hasWildcard, hp, hi, Child.isHardened]
+      · simp [keyAt, DPK.isMultipath, DPK.hasHardenedStep, DPK.hasWildcard, hi]
+
+/-- a wildcard xpub `[origin]xpub/path/*` (any origin) at index `i`: `CKDpub` folded over the
+indices of `path` followed by `i` -/
+theorem keyAt_wildcard_xpub (ckd : X → Nat → X) (o : Option Origin) (x : X) (path : List Child)
+    (idx : List Nat) (hidx : normalIndices path = some idx) (i : Nat) (hi : i < indexLimit) :
+    keyAt ckd (DPK.xpub (P := P) o x path .unhardened) i =
+      some (.ofXpub ((idx ++ [i]).foldl ckd x)) := by
+  have : normalIndices (path ++ [Child.normal i]) = some (idx ++ [i]) := by
+    clear hi
+    induction path generalizing idx with
+    | nil => simp [normalIndices] at hidx ⊢; exact hidx.symm ▸ rfl
+    | cons c cs ih =>
+      cases c with
+      | hardened j => simp [normalIndices] at hidx
+      | normal j =>
+        simp only [normalIndices, Option.map_eq_some_iff] at hidx
+        obtain ⟨idx', h', rfl⟩ := hidx
+        simp [normalIndices, ih idx' h']
+  simp [keyAt, hi, derivePath, this]
+
 /-! ### `translate` -/
 
 theorem firstError_none_iff (f : κ → Except ε κ') (l : List κ) :
